@@ -17,7 +17,9 @@ RULE = ('Paired sessions: world A and world B share the configuration and all ma
         'static and dynamic universes, alpha models fixed-weight, universe-driven, top-N momentum (the shipped example '
         'model), SMA trend and inverse volatility; T anywhere in the session. Oracle: history events, fills, equity '
         'points and recorded target-allocation rows dated <= T 23:59:59 compared by repr (bit for bit); if either '
-        'run fails at a broker time <= T both must fail with the same error type at the same time. A is run twice '
+        'run fails at a broker time <= T both must fail with the same error type at the same time; the public '
+        'allocation table rows dated <= T are compared too; in a third of the cases each world first runs another '
+        'session and whole-file queries on the very same data-handler object. A is run twice '
         'first; configurations where A != A\' are skipped and counted (that is C18\'s subject). Non-trivial = B '
         'differs from A after T, A has >= 1 fill at or before T, >= 1 rebalance after T, and T is not the last day.')
 ASSUMPTIONS = [
